@@ -440,6 +440,8 @@ def r12_close_writes_nothing(ctx):
 
 
 def run(ctx):
+    from . import C09 as _C09s
+    _C09s.r10_constructor_siblings(ctx)   # both roles start a session in the same state (counter 0, unbuffered, ids from 1): sibling cross-check of the constructors
     from . import effects
     effects.check_property(ctx, "C05")    # R05.E: no operation on shared protocol state outside the reviewed table
     r11_no_header_only_padding(ctx)
